@@ -18,6 +18,7 @@ mod vp8recon;
 mod vp8decode;
 mod c10bits;
 mod c10lossless;
+mod c10glue;
 mod c13;
 mod c10;
 mod c11;
@@ -67,6 +68,7 @@ fn main() {
         "vp8decode" => vp8decode::run(tier, seed, out, extra),
         "c10bits" => c10bits::run(tier, seed, out, extra),
         "c10lossless" => c10lossless::run(tier, seed, out, extra),
+        "c10glue" => c10glue::run(tier, seed, out, extra),
         "c13" => c13::run(tier, seed, out, extra),
         "c10" => c10::run(tier, seed, out, extra),
         "c11" => c11::run(tier, seed, out, extra),
